@@ -32,6 +32,45 @@ WIT_HEADER = '#include <Fastor/Fastor.h>\n#include <complex>\n#include <array>\n
 REF_HEADER = '#include <cmath>\n#include <cstdint>\n#include <cstdlib>\n#include <cstring>\n#include <algorithm>\n#include <limits>\n'
 
 
+def prod(xs):
+    p = 1
+    for x in xs:
+        p *= x
+    return p
+
+
+def tensor_t(t, dims):
+    return 'Tensor<%s%s>' % (CTYPE[t], ''.join(',%d' % d for d in dims))
+
+
+def treg(name, t, dims, role='in', init=None, **kw):
+    cell, per = CELL[t]
+    r = {'name': name, 'ety': cell, 'cells': prod(dims) * per, 'kind': 'tensor', 'role': role}
+    if init or role == 'out':
+        r['init'] = init or 'undef'
+    r.update(kw)
+    return r
+
+
+def rreg(name, t, n, role='scratch', init='undef', **kw):
+    cell, per = CELL[t]
+    r = {'name': name, 'ety': cell, 'cells': n * per, 'kind': 'raw', 'role': role, 'init': init}
+    r.update(kw)
+    return r
+
+
+def flat(idx, dims):
+    f = 0
+    for i, d in zip(idx, dims):
+        f = f * d + i
+    return f
+
+
+def multi_indices(dims):
+    import itertools
+    return itertools.product(*[range(d) for d in dims])
+
+
 class Config:
     """one build configuration of the witness TU"""
     def __init__(self, isa='sse2', std='gnu++17', opt='-O2', macros=(), ndebug=True, name=None):
@@ -292,6 +331,23 @@ def finish(prop, tier, seed, runner, level, rule, trusted, floors=None, extra_co
     for r in res:
         by_status[r['status']] = by_status.get(r['status'], 0) + 1
     violations, known_hits, undecided, unsupported = [], {}, [], []
+    groups_ok = set()
+    for r in res:
+        g = (r.get('params') or {}).get('or_group')
+        if g and r['status'] == 'ok':
+            groups_ok.add((g, r.get('config')))
+    kept = []
+    for r in res:
+        g = (r.get('params') or {}).get('or_group')
+        if g and r['status'] != 'ok' and (g, r.get('config')) in groups_ok:
+            r = dict(r); r['status'] = 'alt-not-taken'; r['obligations'] = 0; r['discharged'] = 0
+        kept.append(r)
+    res = kept
+    n_obl = sum(r.get('obligations', 0) for r in res) + extra_obl[0]
+    n_ok = sum(r.get('discharged', 0) for r in res) + extra_obl[1]
+    by_status = {}
+    for r in res:
+        by_status[r['status']] = by_status.get(r['status'], 0) + 1
     for r in res:
         if r['status'] == 'uncompilable':
             v = {'kind': 'uncompilable', 'detail': r.get('error'), 'where': r.get('where')}
